@@ -169,10 +169,32 @@ def matchValue (g : Graph) (p : Pat) : Nat → MSt → Option Name → PRef → 
             | some (n, i) => if i != j then none else matchNode g p f st pi n
 end
 
-/-- `Pattern.match` at `node`: structural match, output values, removability, the `guardTag`
-condition function. -/
-def matchAt (g : Graph) (r : Rule) (node : Node) (ghost : List Name := []) : Option Match :=
-  match matchNode g r.pat 1000 {} r.pat.root node with
+/-- backward slice of a pattern node (the pattern nodes it reaches through its inputs) -/
+def backSlice (p : Pat) : Nat → List Nat → List Nat → List Nat
+  | 0, acc, _ => acc
+  | _ + 1, acc, [] => acc
+  | f + 1, acc, i :: todo =>
+    if acc.contains i then backSlice p f acc todo
+    else
+      let ins := (p.nodes[i]?.map (·.inputs)).getD []
+      backSlice p f (acc ++ [i]) (ins.filterMap (fun r => match r with | .out n _ => some n | _ => none) ++ todo)
+
+/-- `GraphPattern.output_nodes`: producers of the outputs, in order, skipping those already
+covered by the backward slice of an earlier one. -/
+def outputNodes (p : Pat) : List Nat :=
+  (p.outputs.foldl (fun (acc : List Nat × List Nat) o => match o with
+    | .out n _ => if acc.2.contains n then acc else (acc.1 ++ [n], backSlice p 1000 acc.2 [n])
+    | _ => acc) ([], [])).1
+
+/-- `itertools.product`: the last list varies fastest -/
+def product {α} : List (List α) → List (List α)
+  | [] => [[]]
+  | l :: rest => l.flatMap fun x => (product rest).map (x :: ·)
+
+/-- one candidate assignment of graph nodes to the pattern's output nodes (`_multi_match`; for a
+single output node `_match_single_output_node`): structural match, output values, removability -/
+def matchCombo (g : Graph) (r : Rule) (ghost : List Name) (combo : List (Nat × Node)) : Option (MSt × List Name) :=
+  match combo.foldlM (fun st (pi, n) => matchNode g r.pat 1000 st pi n) ({} : MSt) with
   | none => none
   | some st =>
     match r.pat.outputs.mapM (fun o => (st.vb.lookup o).bind id) with
@@ -181,14 +203,30 @@ def matchAt (g : Graph) (r : Rule) (node : Node) (ghost : List Name := []) : Opt
       -- `ghost`: values still read by replacement nodes that were built and then discarded (`uses()` sees them)
       let interior := ((g.nodes.filter fun n => st.nodes.contains n.id).flatMap (·.outputs)).filter fun v => !(outs.contains v)
       if r.removeNodes && (!(validToReplace g st.nodes outs) || interior.any (ghost.contains ·)) then none
+      else some (st, outs)
+
+/-- `Pattern.match` at `node`.  The node is matched against the pattern's first output node; for
+the remaining output nodes every combination of graph nodes with the same operator identifier is
+tried in graph order (`SimplePatternMatcher.match`), the first one that matches structurally and
+is removable wins; then the `guardTag` condition function. -/
+def matchAt (g : Graph) (r : Rule) (node : Node) (ghost : List Name := []) : Option Match :=
+  match outputNodes r.pat with
+  | [] => none
+  | first :: others =>
+    let cands := others.map fun pi =>
+      match r.pat.nodes[pi]? with
+      | some pn => (g.nodes.filter fun n => n.domain == pn.domain && n.op == pn.op && n.overload == "").map fun n => (pi, n)
+      | none => []
+    match (product ([(first, node)] :: cands)).findSome? (matchCombo g r ghost) with
+    | none => none
+    | some (st, outs) =>
+      let tagged := match node.mprops.lookup RULE_NAME_TAG with
+        | some t => (t.splitOn ", ").contains r.name
+        | none => false
+      if r.guardTag && tagged then none
       else
-        let tagged := match node.mprops.lookup RULE_NAME_TAG with
-          | some t => (t.splitOn ", ").contains r.name
-          | none => false
-        if r.guardTag && tagged then none
-        else
-          let binds := st.vb.filterMap fun (pr, v) => match pr with | .var k => some (k, v) | _ => none
-          some { root := node.id, nodes := st.nodes, bindings := binds, outputs := outs }
+        let binds := st.vb.filterMap fun (pr, v) => match pr with | .var k => some (k, v) | _ => none
+        some { root := node.id, nodes := st.nodes, bindings := binds, outputs := outs }
 
 /-! ## Model-level state -/
 
@@ -402,9 +440,17 @@ def renamePassthru (d : Nat) (pairs : List (Name × NewOut)) (g : Graph) : Graph
     | .existing x => renGraph x o d g
     | _ => g) g
 
+/-- Two pattern outputs may be bound to the *same* old value (two pattern nodes matched by one
+graph node): the first new value takes over its uses and its name, the later ones replace a value
+that has no uses left and end up under another name (`NameFixPass`). -/
+def dedupOuts : List Name → List Name → List Name
+  | _, [] => []
+  | seen, o :: rest =>
+    (if seen.contains o then deadName (o ++ "#" ++ toString seen.length) else o) :: dedupOuts (seen ++ [o]) rest
+
 def applyAt (d : Nat) (g : Graph) (m : Match) (newNodes : List Node) (newOutputs : List NewOut)
     (removeNodes : Bool) : Graph :=
-  let pairs := m.outputs.zip newOutputs
+  let pairs := (dedupOuts [] m.outputs).zip newOutputs
   let g1 := retireOld g m removeNodes
   renamePassthru d pairs
     (g1.setNodes (spliceNodes g1.nodes m.root m.nodes (transferNames pairs newNodes) removeNodes))
